@@ -516,8 +516,8 @@ Definition catalogue : list cat_entry := [
   mkentry "As_i32" "u32" [KUint] t_As_i32_u32 h_As_i32_u32 (fun _ => true) (Some (fun zs => VI32 ((nthz zs 0)))) Proved;
   mkentry "As_f32" "u32" [KUint] t_As_f32_u32 h_As_f32_u32 (fun _ => true) (Some (fun zs => VF32 (f32_of_u32 (nthz zs 0)))) Proved;
   mkentry "As_bool" "u32" [KUint] t_As_bool_u32 h_As_bool_u32 (fun _ => true) (Some (fun zs => VBool (bool_of_32 (nthz zs 0)))) Proved;
-  mkentry "As_i32" "f32" [KFloat] t_As_i32_f32 h_As_i32_f32 (fun zs => f2i32_defined (nthz zs 0)) (Some (fun zs => VI32 (i32_of_f32 (nthz zs 0)))) Validated;
-  mkentry "As_u32" "f32" [KFloat] t_As_u32_f32 h_As_u32_f32 (fun zs => f2u32_defined (nthz zs 0)) (Some (fun zs => VU32 (u32_of_f32 (nthz zs 0)))) Validated;
+  mkentry "As_i32" "f32" [KFloat] t_As_i32_f32 h_As_i32_f32 (fun zs => f2i32_defined (nthz zs 0)) (Some (fun zs => VI32 (i32_of_f32 (nthz zs 0)))) Proved;
+  mkentry "As_u32" "f32" [KFloat] t_As_u32_f32 h_As_u32_f32 (fun zs => f2u32_defined (nthz zs 0)) (Some (fun zs => VU32 (u32_of_f32 (nthz zs 0)))) Proved;
   mkentry "As_bool" "f32" [KFloat] t_As_bool_f32 h_As_bool_f32 (fun _ => true) (Some (fun zs => VBool (negb (feq (nthz zs 0) 0)))) Proved;
   mkentry "As_i32" "bool" [KBool] t_As_i32_bool h_As_i32_bool (fun _ => true) (Some (fun zs => VI32 (u32_of_bool (nthb zs 0)))) Proved;
   mkentry "As_u32" "bool" [KBool] t_As_u32_bool h_As_u32_bool (fun _ => true) (Some (fun zs => VU32 (u32_of_bool (nthb zs 0)))) Proved;
